@@ -177,6 +177,7 @@ class Ctx:
     # ---- Hypothesis-driven evaluation
     def hyp(self, strategy, max_examples, fn=None, shrink_s=None):
         import hypothesis
+        import hypothesis.errors
         from hypothesis import HealthCheck, Phase, given, settings
         fn = fn or self.mod.check_case
         shrink_s = shrink_s if shrink_s is not None else (40 if self.quick else 120)
@@ -217,6 +218,14 @@ class Ctx:
                 vv, case = state['last'] if state['last'] is not None else (v, v.case)
                 self.violation(vv, case)
                 # continue: search again behind the finding just recorded
+            except hypothesis.errors.Flaky:
+                # the library signs with OpenSSL's random nonce, so a failure that depends on the signature produced need not
+                # reproduce when Hypothesis replays the same generated input. The violation was nevertheless observed on real
+                # library output; the saved case carries the signature bytes, so the replay file is exact.
+                if state['last'] is None:
+                    raise
+                vv, case = state['last']
+                self.violation(Violation(vv.key, vv.message + ' [not reproduced on every nonce]'), case)
         self.notes.append('%s: stopped after %d rounds of distinct findings' % (self.task, MAX_ROUNDS))
 
     def should_raise(self, v, case):
